@@ -158,7 +158,7 @@ def parse_http_responses(data):
 
 def parse_echo(body):
     """echo application's record stream -> dict(kind, env{}, get[], post[], cookies{}, body, meta{}) or None"""
-    r = {"env": {}, "get": [], "post": [], "cookies": {}, "body": None, "meta": {}, "complete": False}
+    r = {"env": {}, "names": {}, "get": [], "post": [], "cookies": {}, "body": None, "meta": {}, "complete": False}
     i = 0
     try:
         while i < len(body):
@@ -170,6 +170,7 @@ def parse_echo(body):
             if len(k) != kl or len(v) != vl:
                 return None
             if tag == "E": r["env"][k] = v
+            elif tag == "N": r["names"][k] = v
             elif tag == "G": r["get"].append((k, v))
             elif tag == "P": r["post"].append((k, v))
             elif tag == "C": r["cookies"][k] = tuple(v.split(b"\0"))
